@@ -86,6 +86,14 @@
 (* unconditionally - k+2 requests that all check at occupancy limit-(k+1) are all admitted:     *)
 (* named deviation CondRecheck (needs slack >= 2 and n >= slack+1).                             *)
 (*                                                                                             *)
+(* mapquota: the code a request activates carries a one-time activation claim (SetNX on          *)
+(* conncode:claimed:<code>), taken right before the mapping record is written (part of step    *)
+(* Put: the key is the request's own).  Variant "claimbeforequota" (not the code): the claim   *)
+(* is taken first, before the mutex and the count, and the refusal by the quota does not give  *)
+(* it back - named deviation ClaimBeforeQuota: the refused request changed state (RefusedClean)*)
+(* and the same code can never be activated again (RetryClean), neither by the same client     *)
+(* after a mapping was revoked nor by another client.                                          *)
+(*                                                                                             *)
 (* Histories (caps with an explicit removal: conncap CloseConnection, ctrlcap / tuncap Remove):*)
 (* ReRelease(p) removes an id that is not registered - a second close of the same connection,  *)
 (* or a close of an id never seen.  It must change nothing; at most MaxReRel per behaviour.    *)
@@ -94,7 +102,8 @@
 (*   "none"          the code as it is now (the kinds in FixedKinds in their repaired form)    *)
 (*   "asis"          the code before the repairs (check and insert not atomic, no quota mutex,  *)
 (*                   slot freed when handleConnection returns)                                  *)
-(*   "wrongkey", "ctrlsplit", "lockdrop", "indexfirst", "doublerelease", "lastslot"             *)
+(*   "wrongkey", "ctrlsplit", "lockdrop", "indexfirst", "doublerelease", "lastslot",            *)
+(*   "claimbeforequota"                                                                        *)
 (*                   faulty variants (not the code), described with the actions they change;    *)
 (*                   their behaviours must be unrealisable on the right tree                   *)
 (* The configuration (kind, n, limit, nodes) is chosen in Init, so one TLC run covers every    *)
@@ -106,7 +115,8 @@ CONSTANTS Kinds,        \* subset of {"conncap","ctrlcap","tuncap","maplimit","c
           NS,           \* numbers of racing requests, subset of 1..4
           Lims,         \* limit values
           NodeCounts,   \* numbers of service instances (quota kinds only; other kinds always 1)
-          Variants,     \* which code to model, subset of {"none", "asis", "wrongkey", "ctrlsplit", "lockdrop", "indexfirst", "doublerelease", "lastslot"}:
+          Variants,     \* which code to model, subset of {"none", "asis", "wrongkey", "ctrlsplit", "lockdrop", "indexfirst", "doublerelease", "lastslot",
+                        \* "claimbeforequota"}:
                         \* "wrongkey" = quota mutex keyed on the code's issuer; "ctrlsplit" = ClientRegistry.Register evicts and
                         \* inserts in two lock sections; "lockdrop" = the quota mutex table creates mutexes on demand and deletes
                         \* the entry on unlock; "indexfirst" = index entry appended before the records; "doublerelease" = the
@@ -114,6 +124,7 @@ CONSTANTS Kinds,        \* subset of {"conncap","ctrlcap","tuncap","maplimit","c
                         \* the check saw the last free slot
           Shape,        \* "free": every combination; "pairs": (2 requests, slack 1) and (3 requests, slack 2) only (maximal-behaviour jobs)
           MaxReRel,     \* removals of absent ids per behaviour
+          Retries,      \* 1: after everything ended, room is made and a refused request is issued again (MakeRoom, Retry); 0: no
           Listers,      \* 1: a list request may run next to the creates (codequota, mapquota), 0: none
           Slacks,       \* free slots at the start: occupancy = limit - slack (1 = the boundary; 2 lets one request in before two race)
           FixedKinds,   \* kinds modelled in their repaired form; the tag "maplive" = the mapping handler keeps the slot
@@ -141,6 +152,9 @@ VARIABLES cfg,    \* [k, n, lim, nodes, tg, key, slack] - fixed per behaviour
           lpc,    \* list request: idle | list | prune | done
           lq,     \* list request: index entries it still has to look up
           ltg,    \* list request: the entry it is about to remove
+          claims, \* mapquota: requests whose code carries the one-time activation claim (key conncode:claimed:<code>)
+          room,   \* 1: room was made after everything ended (an occupant closed / a counted code or mapping was revoked)
+          retry,  \* the refused request that was issued again after that (0 = none)
           saw,    \* ghost (caps with separate check and insert): the count the check of a request read, while it is
                   \* between check and insert (NoSaw otherwise)
           eff,    \* ghost: net contribution of each request to the semantic state
@@ -148,8 +162,9 @@ VARIABLES cfg,    \* [k, n, lim, nodes, tg, key, slack] - fixed per behaviour
           over,   \* ghost: the limit was exceeded at some instant of this behaviour
           hist
 qx == <<recs, ixs, lpc, lq, ltg>>
-vars == <<cfg, pc, cnt, pre, q, lock, entry, mx, nrr, qx, saw, eff, dev, over, hist>>
-view == <<cfg, pc, cnt, pre, q, lock, entry, mx, nrr, qx, saw, eff, dev, over>>
+tx == <<claims, room, retry>>
+vars == <<cfg, pc, cnt, pre, q, lock, entry, mx, nrr, qx, tx, saw, eff, dev, over, hist>>
+view == <<cfg, pc, cnt, pre, q, lock, entry, mx, nrr, qx, tx, saw, eff, dev, over>>
 NoSaw == 99
 
 K == cfg.k
@@ -164,6 +179,7 @@ LiveFixed == "maplive" \in FixedKinds /\ Var # "asis"    \* the mapping handler'
 IndexFirst == Var = "indexfirst"
 DoubleRel == Var = "doublerelease"
 LastSlot == Var = "lastslot"
+ClaimFirst == Var = "claimbeforequota" /\ K = "mapquota"
 \* does the insert step of p look at the count again? (variant lastslot: only if its check saw the last free slot)
 Rechecks(p) == ~LastSlot \/ saw[p] = Lim - 1
 \* connections end / absent ids are removed only in the boundary configurations (slack 1) of the real orders
@@ -201,6 +217,7 @@ Init == \E k \in Kinds, nn \in NS, l \in Lims, nd \in NodeCounts, tg \in {"same"
           /\ (v = "lockdrop" => (k \in QuotaKinds /\ sl = 2 /\ nn >= 3))
           /\ (v = "indexfirst" => (k \in QuotaKinds /\ sl = 1 /\ nn = 2 /\ l > 0 /\ tg = "same"))
           /\ (v = "doublerelease" => (k = "maplimit" /\ sl = 1 /\ nn = 3 /\ l > 0))
+          /\ (v = "claimbeforequota" => (k = "mapquota" /\ sl = 1 /\ l > 0))
           /\ (v = "lastslot" => (k \in CapKinds /\ sl >= 2 /\ nn >= sl + 1))
           /\ (sl > 1 => v \in {"none", "lockdrop", "lastslot"})
           \* limits above 2 only where they add something: caps with separate check and insert, n = slack+1 requests
@@ -218,6 +235,7 @@ Init == \E k \in Kinds, nn \in NS, l \in Lims, nd \in NodeCounts, tg \in {"same"
           /\ mx = [p \in Procs |-> 0] /\ nrr = 0
           /\ recs = {} /\ ixs = <<>> /\ lpc = "idle" /\ lq = <<>> /\ ltg = 0
           /\ saw = [p \in Procs |-> NoSaw]
+          /\ claims = {} /\ room = 0 /\ retry = 0
           /\ eff = [p \in Procs |-> 0]
           /\ dev = FALSE /\ over = FALSE /\ hist = <<>>
 
@@ -233,7 +251,7 @@ Log(p, a) == /\ over' = (over \/ (Lim > 0 /\ OccOf(pc', pre', recs') > Lim))
 Check(p) == /\ K \in CapKinds /\ pc[p] = "start"
             /\ pc' = [pc EXCEPT ![p] = IF Full(cnt) THEN "refused" ELSE "mid"]
             /\ saw' = [saw EXCEPT ![p] = IF Full(cnt) THEN NoSaw ELSE cnt]
-            /\ UNCHANGED <<cfg, qx, cnt, pre, q, lock, entry, mx, nrr, eff, dev>>
+            /\ UNCHANGED <<cfg, tx, qx, cnt, pre, q, lock, entry, mx, nrr, eff, dev>>
             /\ Log(p, "Check")
 
 \* as is: the insert does not look at the count again (deviation StaleInsert when the cap was reached meanwhile)
@@ -242,7 +260,7 @@ Insert(p) == /\ K \in CapKinds /\ ~Fixed /\ pc[p] = "mid"
              /\ dev' = (dev \/ Full(cnt))
              /\ pc' = [pc EXCEPT ![p] = "adm"]
              /\ saw' = [saw EXCEPT ![p] = NoSaw]
-             /\ UNCHANGED <<cfg, qx, pre, q, lock, entry, mx, nrr>>
+             /\ UNCHANGED <<cfg, tx, qx, pre, q, lock, entry, mx, nrr>>
              /\ Log(p, "Insert")
 
 \* repaired CreateConnection: count check and map insert in one write-lock section
@@ -253,7 +271,7 @@ InsertChk(p) == /\ K = "conncap" /\ Fixed /\ pc[p] = "mid"
                    ELSE pc' = [pc EXCEPT ![p] = "adm"] /\ cnt' = cnt + 1 /\ eff' = [eff EXCEPT ![p] = 1]
                 /\ dev' = (dev \/ (~Rechecks(p) /\ Full(cnt)))
                 /\ saw' = [saw EXCEPT ![p] = NoSaw]
-                /\ UNCHANGED <<cfg, qx, pre, q, lock, entry, mx, nrr>>
+                /\ UNCHANGED <<cfg, tx, qx, pre, q, lock, entry, mx, nrr>>
                 /\ Log(p, "InsertChk")
 
 \* repaired mapping handler: reserve with Add(1), compare the value Add returned, undo when over the limit
@@ -262,12 +280,12 @@ AddCmp(p) == /\ K = "maplimit" /\ Fixed /\ pc[p] = "mid"
              /\ pc' = [pc EXCEPT ![p] = IF Rechecks(p) /\ Lim > 0 /\ cnt + 1 > Lim THEN "undo" ELSE "adm"]
              /\ dev' = (dev \/ (~Rechecks(p) /\ Full(cnt)))
              /\ saw' = [saw EXCEPT ![p] = NoSaw]
-             /\ UNCHANGED <<cfg, qx, pre, q, lock, entry, mx, nrr>>
+             /\ UNCHANGED <<cfg, tx, qx, pre, q, lock, entry, mx, nrr>>
              /\ Log(p, "AddCmp")
 Undo(p) == /\ pc[p] = "undo"
            /\ cnt' = cnt - 1 /\ eff' = [eff EXCEPT ![p] = 0]
            /\ pc' = [pc EXCEPT ![p] = "refused"]
-           /\ UNCHANGED <<cfg, saw, qx, pre, q, lock, entry, mx, nrr, dev>>
+           /\ UNCHANGED <<cfg, tx, saw, qx, pre, q, lock, entry, mx, nrr, dev>>
            /\ Log(p, "Undo")
 
 \* ---- registries: check and insert under one lock -------------------------------------------
@@ -287,7 +305,7 @@ Reg(p) == /\ K \in RegKinds /\ pc[p] = "start" /\ RegFree
                   /\ pc' = IF old > Old THEN [pc EXCEPT ![p] = "evict"] ELSE [pc EXCEPT ![p] = "evict", ![old] = "evicted"]
                   /\ eff' = IF old > Old THEN eff ELSE [eff EXCEPT ![old] = 0]
           /\ lock' = IF K = "ctrlcap" /\ CtrlLocked /\ Full(cnt) THEN [lock EXCEPT ![RLM] = p] ELSE lock
-          /\ UNCHANGED <<cfg, saw, qx, dev, entry, mx, nrr>>
+          /\ UNCHANGED <<cfg, tx, saw, qx, dev, entry, mx, nrr>>
           /\ Log(p, "Reg")
 
 \* ... Close returned: insert. In the code this is still the lock section of Reg(p), so the count is the one Reg left;
@@ -298,14 +316,14 @@ RegIns(p) == /\ K = "ctrlcap" /\ pc[p] = "evict"
              /\ dev' = (dev \/ Full(cnt))
              /\ pc' = [pc EXCEPT ![p] = "adm"]
              /\ lock' = IF CtrlLocked THEN [lock EXCEPT ![RLM] = 0] ELSE lock
-             /\ UNCHANGED <<cfg, saw, qx, pre, entry, mx, nrr>>
+             /\ UNCHANGED <<cfg, tx, saw, qx, pre, entry, mx, nrr>>
              /\ Log(p, "RegIns")
 
 \* mapping handler: the connection got its tunnel, which is now registered with the tunnel manager (peer
 \* notifications can reach it); Tunnel.Start comes next
 Register(p) == /\ K = "maplimit" /\ Rel /\ pc[p] = "adm"
                /\ pc' = [pc EXCEPT ![p] = "reg"]
-               /\ UNCHANGED <<cfg, saw, qx, cnt, pre, q, lock, entry, mx, nrr, eff, dev>>
+               /\ UNCHANGED <<cfg, tx, saw, qx, cnt, pre, q, lock, entry, mx, nrr, eff, dev>>
                /\ Log(p, "Register")
 
 \* Tunnel.Start succeeded: the connection is relayed from now on; handleConnection returns.
@@ -314,7 +332,7 @@ GoLive(p) == /\ K = "maplimit" /\ pc[p] = "reg"
              /\ pc' = [pc EXCEPT ![p] = "live"]
              /\ cnt' = IF LiveFixed THEN cnt ELSE cnt - 1
              /\ dev' = (dev \/ ~LiveFixed)
-             /\ UNCHANGED <<cfg, saw, qx, pre, q, lock, entry, mx, nrr, eff>>
+             /\ UNCHANGED <<cfg, tx, saw, qx, pre, q, lock, entry, mx, nrr, eff>>
              /\ Log(p, IF LiveFixed THEN "GoLive" ELSE "Detach")
 
 \* a peer notification (fatal TunnelError / TunnelClosed) closes the registered tunnel before it was started:
@@ -323,7 +341,7 @@ PeerClose(p) == /\ K = "maplimit" /\ pc[p] = "reg"
                 /\ pc' = [pc EXCEPT ![p] = "regc"]
                 /\ cnt' = IF LiveFixed THEN cnt - 1 ELSE cnt
                 /\ eff' = [eff EXCEPT ![p] = 0]
-                /\ UNCHANGED <<cfg, saw, qx, pre, q, lock, entry, mx, nrr, dev>>
+                /\ UNCHANGED <<cfg, tx, saw, qx, pre, q, lock, entry, mx, nrr, dev>>
                 /\ Log(p, "PeerClose")
 
 \* ... Tunnel.Start then fails; handleConnection's deferred release runs: as is it is the only release; repaired it
@@ -332,7 +350,7 @@ StartFail(p) == /\ K = "maplimit" /\ pc[p] = "regc"
                 /\ pc' = [pc EXCEPT ![p] = "rel"]
                 /\ cnt' = IF ~LiveFixed \/ DoubleRel THEN cnt - 1 ELSE cnt
                 /\ dev' = (dev \/ (LiveFixed /\ DoubleRel))
-                /\ UNCHANGED <<cfg, saw, qx, pre, q, lock, entry, mx, nrr, eff>>
+                /\ UNCHANGED <<cfg, tx, saw, qx, pre, q, lock, entry, mx, nrr, eff>>
                 /\ Log(p, "StartFail")
 
 \* a peer notification closes a tunnel that is relaying: Tunnel.Close runs once (state CAS) and its OnClosed gives the
@@ -342,7 +360,7 @@ PeerCloseLive(p) == /\ K = "maplimit" /\ Rel /\ pc[p] = "live"
                     /\ pc' = [pc EXCEPT ![p] = "rel"]
                     /\ cnt' = IF LiveFixed THEN cnt - 1 ELSE cnt
                     /\ eff' = [eff EXCEPT ![p] = 0]
-                    /\ UNCHANGED <<cfg, saw, qx, pre, q, lock, entry, mx, nrr, dev>>
+                    /\ UNCHANGED <<cfg, tx, saw, qx, pre, q, lock, entry, mx, nrr, dev>>
                     /\ Log(p, "PeerCloseLive")
 
 \* an admitted connection ends
@@ -351,7 +369,7 @@ Release(p) == /\ Rel /\ ~IsQuota /\ pc[p] \in {"adm", "live"} /\ RegFree
               /\ eff' = [eff EXCEPT ![p] = 0]
               /\ pc' = [pc EXCEPT ![p] = "rel"]
               /\ q' = SelectSeq(q, LAMBDA x : x # p)
-              /\ UNCHANGED <<cfg, saw, qx, pre, lock, entry, mx, nrr, dev>>
+              /\ UNCHANGED <<cfg, tx, saw, qx, pre, lock, entry, mx, nrr, dev>>
               /\ Log(p, "Release")
 
 \* a removal of an id that is not registered: second close of a connection that is gone, close of an unknown id
@@ -359,7 +377,7 @@ Release(p) == /\ Rel /\ ~IsQuota /\ pc[p] \in {"adm", "live"} /\ RegFree
 ReRelease(p) == /\ Rel /\ K \in {"conncap", "ctrlcap", "tuncap"} /\ RegFree
                 /\ pc[p] \in {"start", "rel", "refused", "evicted"} /\ nrr < MaxReRel
                 /\ nrr' = nrr + 1
-                /\ UNCHANGED <<cfg, saw, qx, pc, cnt, pre, q, lock, entry, mx, eff, dev>>
+                /\ UNCHANGED <<cfg, tx, saw, qx, pc, cnt, pre, q, lock, entry, mx, eff, dev>>
                 /\ Log(p, "ReRelease")
 
 \* ---- per-client quotas over shared storage -------------------------------------------------
@@ -383,8 +401,13 @@ InFlightOtherKey(p) == \E r \in Procs \ {p} : /\ Node(r) = Node(p) /\ KeyOf(r) #
                                                /\ pc[r] \in {"count", "put", "index"}
 \* a request arrives (at any time - also after others have returned): it looks its mutex up (variant lockdrop:
 \* creates one if the table has none) and locks it or waits for it
+\* Variant claimbeforequota (mapquota): the one-time activation claim of the code is taken first, before the mutex; a
+\* request whose code is claimed already ends here with "already been used" (pc = conflict).
 Call(p) == /\ IsQuota /\ pc[p] = "start"
-           /\ IF ~Fixed
+           /\ claims' = IF ClaimFirst THEN claims \cup {p} ELSE claims
+           /\ IF ClaimFirst /\ p \in claims
+              THEN pc' = [pc EXCEPT ![p] = "conflict"] /\ UNCHANGED <<lock, entry, mx, dev>>
+              ELSE IF ~Fixed
               THEN pc' = [pc EXCEPT ![p] = "count"] /\ UNCHANGED <<lock, entry, mx, dev>>
               ELSE LET m == IF entry[LK(p)] = 0 THEN p ELSE entry[LK(p)] IN
                    /\ entry' = [entry EXCEPT ![LK(p)] = m]
@@ -394,14 +417,14 @@ Call(p) == /\ IsQuota /\ pc[p] = "start"
                       ELSE /\ pc' = [pc EXCEPT ![p] = "count"]
                            /\ lock' = [lock EXCEPT ![m] = p]
                            /\ dev' = (dev \/ InFlightOtherKey(p))
-           /\ UNCHANGED <<cfg, saw, qx, cnt, pre, q, eff, nrr>>
+           /\ UNCHANGED <<cfg, room, retry, saw, qx, cnt, pre, q, eff, nrr>>
            /\ Log(p, "Call")
 
 \* the decision: number of countable entries in the per-client index at the time of the read
 Count(p) == /\ IsQuota /\ pc[p] = "count"
-            /\ IF QFull(cnt) THEN Return(p, "refused", dev)
+            /\ IF QFull(cnt) THEN Return(p, "refused", dev \/ p \in claims)   \* deviation ClaimBeforeQuota: refused, claim stays
                ELSE pc' = [pc EXCEPT ![p] = IF IndexFirst THEN "index" ELSE "put"] /\ UNCHANGED <<lock, entry, dev>>
-            /\ UNCHANGED <<cfg, saw, qx, cnt, pre, q, eff, mx, nrr>>
+            /\ UNCHANGED <<cfg, tx, saw, qx, cnt, pre, q, eff, mx, nrr>>
             /\ Log(p, "Count")
 
 \* the record is written: the code / mapping exists (deviation StalePut when the quota was used up meanwhile)
@@ -410,7 +433,8 @@ Put(p) == /\ IsQuota /\ pc[p] = "put"
           /\ eff' = [eff EXCEPT ![p] = 1]
           /\ IF IndexFirst THEN Return(p, "adm", dev \/ QFull(Occ))
              ELSE pc' = [pc EXCEPT ![p] = "index"] /\ dev' = (dev \/ QFull(Occ)) /\ UNCHANGED <<lock, entry>>
-          /\ UNCHANGED <<cfg, saw, cnt, pre, q, mx, nrr, ixs, lpc, lq, ltg>>
+          /\ claims' = IF K = "mapquota" /\ ~ClaimFirst THEN claims \cup {p} ELSE claims   \* SetNX of the one-time activation claim
+          /\ UNCHANGED <<cfg, room, retry, saw, cnt, pre, q, mx, nrr, ixs, lpc, lq, ltg>>
           /\ Log(p, "Put")
 
 \* the index entry is appended: from now on other requests count it
@@ -419,7 +443,7 @@ Index(p) == /\ IsQuota /\ pc[p] = "index"
             /\ ixs' = Append(ixs, p)
             /\ IF IndexFirst THEN pc' = [pc EXCEPT ![p] = "put"] /\ UNCHANGED <<lock, entry, dev>>
                ELSE Return(p, "adm", dev)
-            /\ UNCHANGED <<cfg, saw, pre, q, eff, mx, nrr, recs, lpc, lq, ltg>>
+            /\ UNCHANGED <<cfg, tx, saw, pre, q, eff, mx, nrr, recs, lpc, lq, ltg>>
             /\ Log(p, "Index")
 
 \* ---- the list request (no quota mutex) ---------------------------------------------------------
@@ -433,11 +457,11 @@ Scan(sq) == LET bad == {i \in 1..Len(sq) : sq[i] \notin recs} IN
                  lpc' = "prune" /\ ltg' = sq[i] /\ lq' = SubSeq(sq, i + 1, Len(sq))
 LCall == /\ HasLister /\ lpc = "idle"
          /\ lpc' = "list"
-         /\ UNCHANGED <<cfg, saw, pc, cnt, pre, q, lock, entry, mx, nrr, eff, dev, recs, ixs, lq, ltg>>
+         /\ UNCHANGED <<cfg, tx, saw, pc, cnt, pre, q, lock, entry, mx, nrr, eff, dev, recs, ixs, lq, ltg>>
          /\ Log(0, "LCall")
 LList == /\ lpc = "list"
          /\ Scan(ixs)
-         /\ UNCHANGED <<cfg, saw, pc, cnt, pre, q, lock, entry, mx, nrr, eff, dev, recs, ixs>>
+         /\ UNCHANGED <<cfg, tx, saw, pc, cnt, pre, q, lock, entry, mx, nrr, eff, dev, recs, ixs>>
          /\ Log(0, "LList")
 \* RemoveFromList of an entry whose record was not found - the entry of a create in flight (deviation LivePruned)
 LPrune == /\ lpc = "prune"
@@ -446,14 +470,49 @@ LPrune == /\ lpc = "prune"
              /\ cnt' = IF there THEN cnt - 1 ELSE cnt
           /\ dev' = TRUE
           /\ Scan(lq)
-          /\ UNCHANGED <<cfg, saw, pc, pre, q, lock, entry, mx, nrr, eff, recs>>
+          /\ UNCHANGED <<cfg, tx, saw, pc, pre, q, lock, entry, mx, nrr, eff, recs>>
           /\ Log(0, "LPrune")
+
+\* ---- after a refusal: make room, issue the refused request again ----------------------------------
+\* "A request refused because of a limit changes no state": once everything has ended and room has been made (an
+\* occupant closes / one counted code or mapping is revoked), the same request - same connection id, same code -
+\* goes through the same steps again and nothing it left behind the first time may stand in its way.  One retry
+\* per behaviour.  (The driver also retries a refused activation as ANOTHER client, whose own quota is empty: in
+\* the model RetryOther - no room needed, only the claim can stand in the way.)
+Quiescent == /\ lpc \in {"idle", "done"}
+             /\ \A p \in Procs : pc[p] \in {"off", "refused", "rel", "evicted", "adm", "live", "conflict", "other"}
+TailOn == Retries = 1 /\ Var \in {"none", "claimbeforequota"} /\ K # "ctrlcap"
+Occupants == {p \in Procs : pc[p] \in {"adm", "live"}}
+MakeRoom == /\ TailOn /\ Quiescent /\ room = 0 /\ retry = 0
+            /\ \E p \in Procs : pc[p] = "refused"
+            /\ pre > 0 \/ Occupants # {}
+            /\ room' = 1 /\ cnt' = cnt - 1
+            /\ IF pre > 0
+               THEN pre' = pre - 1 /\ UNCHANGED <<pc, eff, recs, ixs>>
+               ELSE LET v == CHOOSE x \in Occupants : \A y \in Occupants : x <= y IN
+                    /\ pc' = [pc EXCEPT ![v] = "rel"] /\ eff' = [eff EXCEPT ![v] = 0]
+                    /\ recs' = recs \ {v} /\ ixs' = SelectSeq(ixs, LAMBDA x : x # v)
+                    /\ pre' = pre
+            /\ UNCHANGED <<cfg, claims, retry, saw, q, lock, entry, mx, nrr, lpc, lq, ltg, dev>>
+            /\ Log(0, "MakeRoom")
+Retry(p) == /\ TailOn /\ Quiescent /\ room = 1 /\ retry = 0 /\ pc[p] = "refused"
+            /\ retry' = p /\ pc' = [pc EXCEPT ![p] = "start"]
+            /\ UNCHANGED <<cfg, claims, room, saw, qx, cnt, pre, q, lock, entry, mx, nrr, eff, dev>>
+            /\ Log(p, "Retry")
+\* the refused activation is issued again by another client (own quota empty): only the claim decides
+RetryOther(p) == /\ TailOn /\ K = "mapquota" /\ Quiescent /\ retry = 0 /\ pc[p] = "refused"
+                 /\ retry' = p
+                 /\ pc' = [pc EXCEPT ![p] = IF p \in claims THEN "conflict" ELSE "other"]
+                 /\ claims' = claims \cup {p}
+                 /\ UNCHANGED <<cfg, room, saw, qx, cnt, pre, q, lock, entry, mx, nrr, eff, dev>>
+                 /\ Log(p, "RetryOther")
 
 Next == \/ \E p \in Procs : \/ Check(p) \/ Insert(p) \/ InsertChk(p) \/ AddCmp(p) \/ Undo(p)
                             \/ Reg(p) \/ RegIns(p) \/ Release(p) \/ ReRelease(p)
                             \/ Register(p) \/ GoLive(p) \/ PeerClose(p) \/ StartFail(p) \/ PeerCloseLive(p)
                             \/ Call(p) \/ Count(p) \/ Put(p) \/ Index(p)
-        \/ LCall \/ LList \/ LPrune
+                            \/ Retry(p) \/ RetryOther(p)
+        \/ LCall \/ LList \/ LPrune \/ MakeRoom
 Spec == Init /\ [][Next]_vars
 
 \* ---- properties (C17) ----------------------------------------------------------------------
@@ -465,23 +524,32 @@ NoDeviation == ~dev
 \* the code as it is, on one service instance: strict; everything else: every overshoot through a named deviation
 Strict == (Var = "none" /\ cfg.nodes = 1) => (NoOvershoot /\ NoDeviation)
 \* (2) a refused request has no net effect on the semantic state (nor has one that ended or was evicted)
-RefusedNoEffect == \A p \in Procs : pc[p] \in {"refused", "rel", "evicted", "start", "off"} => eff[p] = 0
+\* ... and leaves nothing else behind either: no claim on the code it wanted to activate
+RefusedClean == \A p \in Procs : pc[p] \in {"refused", "start", "off"} => p \notin claims
+RefusedNoEffect == /\ \A p \in Procs : pc[p] \in {"refused", "rel", "evicted", "start", "off"} => eff[p] = 0
+                   /\ RefusedClean \/ (ClaimFirst /\ dev)
+\* (2b) the refused request, issued again (by the same client after room was made, or by another client), is not
+\* turned away for a reason that is not the limit ...
+RetryClean == \A p \in Procs : pc[p] # "conflict"
+RetryOK == RetryClean \/ (ClaimFirst /\ dev)
+\* ... and (the code as it is, one instance) after room was made it is not refused by the limit again
+RetryAdmitted == (Var = "none" /\ cfg.nodes = 1 /\ retry # 0) => pc[retry] # "refused"
 \* the counter the code maintains is exact: occupants plus reservations about to be undone
 CounterExact == Var \in {"doublerelease", "indexfirst"} \/ IF IsQuota THEN cnt = pre + Len(ixs)
                 ELSE cnt = pre + Cardinality({p \in Procs : \/ pc[p] \in {"adm", "undo", "reg"}
                                                             \/ (LiveFixed /\ pc[p] = "live")
                                                             \/ (~LiveFixed /\ pc[p] = "regc")})
 TypeOK == /\ cfg.n \in NS /\ cfg.lim \in Lims
-          /\ \A p \in Procs : pc[p] \in {"off", "start", "mid", "undo", "evict", "wait", "count", "put", "index", "adm", "reg", "regc", "live", "refused", "rel", "evicted"}
+          /\ \A p \in Procs : pc[p] \in {"off", "start", "mid", "undo", "evict", "wait", "count", "put", "index", "adm", "reg", "regc", "live", "refused", "rel", "evicted", "conflict", "other"}
           /\ lpc \in {"idle", "list", "prune", "done"}
           /\ \A i \in MX : lock[i] = 0 \/ pc[lock[i]] \in {"count", "put", "index", "evict"}
           /\ (IsQuota /\ Fixed) => \A p \in Procs : pc[p] \in {"count", "put", "index"} => lock[mx[p]] = p
-          /\ nrr \in 0..MaxReRel
+          /\ nrr \in 0..MaxReRel /\ room \in 0..1 /\ retry \in 0..MaxN /\ claims \subseteq Procs
           /\ \A p \in Procs : saw[p] # NoSaw => pc[p] = "mid"
 
 \* generation without VIEW: one line per maximal behaviour (every request refused, ended, evicted, or admitted for good)
 Terminal == /\ lpc \in {"idle", "done"} /\ ~(HasLister /\ lpc = "idle")
-            /\ \A p \in Procs : \/ pc[p] \in {"off", "refused", "rel", "evicted"}
+            /\ \A p \in Procs : \/ pc[p] \in {"off", "refused", "rel", "evicted", "conflict", "other"}
                                 \/ (pc[p] = "adm" /\ (IsQuota \/ ~Rel))
 EmitMaximal == (EmitAll /\ Terminal) => PrintT("BEH " \o ToJson(Beh(hist, over)))
 =============================================================================
